@@ -21,7 +21,7 @@ def load():
 def match(pid, signature, findings=None):
     findings = load() if findings is None else findings
     for f in findings:
-        if f.get('status') != 'known' or f['property'] != pid:
+        if f.get('status') != 'known' or (f['property'] != pid and pid not in f.get('also', ())):
             continue
         ok = True
         for k, v in f['match'].items():
